@@ -25,6 +25,8 @@ type tgt struct {
 	ph          interface{}        // pointer to placeholder var
 	phAddr      uintptr
 	recvIsParam bool // As(): the receiver is an ordinary first parameter of the stub
+	// refusesOrigin: goom cannot build a trampoline for this function (Origin(...).Apply must be refused)
+	refusesOrigin bool
 }
 
 func targets() []*tgt {
@@ -62,6 +64,16 @@ func targets() []*tgt {
 			ocb: func() interface{} { return func(t *CT, a int) int { return (*ph)(t, a) | marker } },
 			ph:  ph, phAddr: vmon.FuncCodePtr(*ph), recvIsParam: true})
 	}
+	ts = append(ts, &tgt{name: "CLoop", entry: vmon.FuncCodePtr(CLoop), call: CLoop, orig: func(n int) int {
+		for n > 0 {
+			n -= 3
+		}
+		return n
+	},
+		handle: func(b *mocker.Builder) mocker.ExportedMocker { return b.Func(CLoop) },
+		cb:     func(v int) interface{} { return func(a int) int { return v } },
+		ocb:    func() interface{} { return func(a int) int { return phl2(a) | marker } },
+		ph:     &phl2, phAddr: vmon.FuncCodePtr(phl2), refusesOrigin: true})
 	// function literals held in package variables
 	lits := []func(int) int{Lit0, Lit1}
 	phls := []*func(int) int{&phl0, &phl1}
@@ -137,10 +149,12 @@ type world struct {
 	phUsed  map[uintptr]bool
 	kept    map[[2]int]mocker.ExportedMocker // mocker objects the "user" held on to
 	sess    map[[2]int]bool                  // true: every instruction for (builder,target) goes through the kept object
-	rng     *vmon.Rng
-	hist    []string
-	bad     bool
-	maxLive int
+	// poisoned: this builder's mocker for the target still carries an origin placeholder goom refused
+	poisoned map[[2]int]bool
+	rng      *vmon.Rng
+	hist     []string
+	bad      bool
+	maxLive  int
 }
 
 func retVal(b, t int) int  { return 100000 + b*1000 + t }
@@ -152,6 +166,7 @@ func newWorld(rep *vmon.Report, img *vmon.TextImage, ts []*tgt, ns []neighbour, 
 	w.amb = make([]bool, len(ts))
 	w.kept = map[[2]int]mocker.ExportedMocker{}
 	w.sess = map[[2]int]bool{}
+	w.poisoned = map[[2]int]bool{}
 	for i := 0; i < nb; i++ {
 		w.bs = append(w.bs, mocker.Create())
 		w.cfgs = append(w.cfgs, make([]cfg, len(ts)))
@@ -339,6 +354,21 @@ func (w *world) apply(o op) {
 			} else {
 				w.cur[o.t], w.amb[o.t] = o.b, false
 			}
+		case "badorigin":
+			// an Apply that the patch layer itself refuses (the prologue cannot be moved into an origin placeholder):
+			// nothing changes, whatever was or was not in effect stays so - in particular a mock that was cancelled before
+			// does not come back
+			var rej interface{}
+			func() {
+				defer func() { rej = recover() }()
+				w.lookup(o.b, o.t).Origin(w.ts[o.t].ph).Apply(w.ts[o.t].ocb())
+			}()
+			if rej == nil {
+				w.viol("C02/unrelocatable-origin-accepted", fmt.Sprintf("%s: an origin placeholder was accepted for a function whose loop re-enters its first bytes", w.ts[o.t].name))
+			}
+			w.rep.Stat("refused_origin_applies", 1)
+			w.poisoned[[2]int{o.b, o.t}] = true
+			w.touched[o.b][o.t] = true
 		case "badapply":
 			// an Apply whose callback cannot fit the target is rejected; whatever was in effect stays in effect and
 			// stays removable (the model does not change)
@@ -354,12 +384,14 @@ func (w *world) apply(o op) {
 		case "cancel":
 			w.lookup(o.b, o.t).Cancel()
 			w.release(o.b, o.t)
+			delete(w.poisoned, [2]int{o.b, o.t})
 		case "reset":
 			b.Reset()
 			for ti := range w.ts {
 				w.release(o.b, ti)
 				delete(w.kept, [2]int{o.b, ti})
 				delete(w.sess, [2]int{o.b, ti})
+				delete(w.poisoned, [2]int{o.b, ti})
 			}
 		}
 	}()
@@ -418,6 +450,26 @@ func (w *world) legal(o op) bool {
 		// (on the pinned tree the stale stub forwards to the patched function itself): sessions only Apply and Cancel
 		return false
 	}
+	if o.kind == "badorigin" {
+		// issued only while nobody has the target mocked (what a refused re-apply does to a LIVE mock - goom drops it -
+		// is not settled by the statement); afterwards this builder's mocker for the target keeps the refused origin
+		// until it is cancelled or the builder reset, so nothing else goes through it before that
+		if !w.ts[o.t].refusesOrigin || w.cur[o.t] != -1 || w.amb[o.t] {
+			return false
+		}
+		for b := range w.bs {
+			if m := w.cfgs[b][o.t].mode; m != "none" && m != "" {
+				return false
+			}
+		}
+		return !w.sess[[2]int{o.b, o.t}]
+	}
+	if w.poisoned[[2]int{o.b, o.t}] && o.kind != "cancel" {
+		return false
+	}
+	if o.kind == "origin" && w.ts[o.t].refusesOrigin {
+		return false
+	}
 	switch o.kind {
 	case "return":
 		// Return right after a When chain extends the clause (chain state): not generated
@@ -460,7 +512,7 @@ func TestC02(t *testing.T) {
 		}
 	}
 	rep.Stat("max:targets_sharing_a_page_with_another_target", int64(share))
-	kinds := []string{"applyA", "applyB", "origin", "return", "when", "cancel", "reset", "applyA", "return", "when", "badapply"}
+	kinds := []string{"applyA", "applyB", "origin", "return", "when", "cancel", "reset", "applyA", "return", "when", "badapply", "badorigin", "badorigin"}
 	for h := 0; h < nh; h++ {
 		nb := 1 + rng.Intn(3)
 		w := newWorld(rep, img, ts, ns, nb)
